@@ -1076,7 +1076,14 @@ func findInvalidSegment(path string) string {
 	if slash == -1 {
 		return ""
 	}
-	path = path[slash+1:]
+	return findInvalidSubpathSegment(path[slash+1:])
+}
+
+// The same for the part of the import path that is substituted into the
+// target. This part has no leading "." segment, so every segment is checked.
+// Like in node, the comparison is case-insensitive and also catches percent-
+// encoded variants (the resolved path is percent-decoded later on).
+func findInvalidSubpathSegment(path string) string {
 	for path != "" {
 		slash := strings.IndexAny(path, "/\\")
 		segment := path
@@ -1086,7 +1093,11 @@ func findInvalidSegment(path string) string {
 		} else {
 			path = ""
 		}
-		if segment == "." || segment == ".." || segment == "node_modules" {
+		decoded := segment
+		if unescaped, err := url.PathUnescape(segment); err == nil {
+			decoded = unescaped
+		}
+		if decoded == "." || decoded == ".." || strings.EqualFold(decoded, "node_modules") {
 			return segment
 		}
 	}
@@ -1163,7 +1174,7 @@ func (r resolverQuery) esmPackageTargetResolve(
 
 		// If subpath split on "/" or "\" contains any ".", ".." or "node_modules"
 		// segments, throw an Invalid Module Specifier error.
-		if invalidSegment := findInvalidSegment(subpath); invalidSegment != "" {
+		if invalidSegment := findInvalidSubpathSegment(subpath); invalidSegment != "" {
 			if r.debugLogs != nil {
 				r.debugLogs.addNote(fmt.Sprintf("The path %q is invalid because it contains invalid segment %q", subpath, invalidSegment))
 			}
